@@ -226,6 +226,57 @@ def run(R, tier):
 
     # ---- R03.4 routing ----------------------------------------------------------------------------------------------------
     header_match_table(R, "R03.4", eng)
+    # the dispatcher itself: Node::exec on a branch with concretely named children selects the first child whose name the
+    # received mnemonic matches by the rule above (no pre-filter on length or spelling may change that)
+    names = [b"TRIGger", b"ABORt2", b"XY", b"COUNt12"]
+    probes = [b"TRIG", b"trigger", b"TRIGGER1", b"trig1", b"trigg", b"TRIG2", b"ABOR", b"ABOR2", b"abort2", b"ABORT", b"ABORT02", b"XY", b"xy1", b"XY01", b"x", b"COUN12", b"count12", b"COUNT1", b"COUNT012", b"NONE"]
+    bad = []
+    for text in probes:
+        exp = next((i for i, nm in enumerate(names) if ref_match(nm, text)), None)
+        try:
+            ps = D.exec_children_named(names, text)
+        except (fdai.TooManyPaths, RecursionError) as e:
+            bad.append("%r: undecided (%s)" % (text, type(e).__name__))
+            continue
+        execs = [e for p in ps for e in p.calls if e.name.endswith("Node::exec")]
+        if len(ps) != 1:
+            bad.append("%r: %d paths" % (text, len(ps)))
+        elif exp is None:
+            if ps[0].outcome != "Err(UndefinedHeader)" or execs:
+                bad.append("%r matches no child but %s" % (text, ps[0].describe()))
+        else:
+            a0 = execs[0].args[0] if len(execs) == 1 else None
+            if not (isinstance(a0, tuple) and a0[0] == "ref" and a0[1] == "child%d" % exp and ps[0].consumed == ["ProgramMnemonic"]):
+                bad.append("%r must select %s: %s" % (text, names[exp].decode(), ps[0].describe()))
+    R.check(not bad, "R03.4", "exec:child-selection", "a received mnemonic selects the first child whose definition it matches (short/long form, default-1 suffix) and only that (%d mnemonics x %d children)" % (len(probes), len(names)), "; ".join(bad[:4]))
+    # derived enums (the witness crate and the workspace's own): the generated from_mnemonic applies the same rule
+    try:
+        from . import c20
+        PW = facts.program("witness")
+        R.configs.append("witness")
+        progm = facts.Merged(PW, P)
+        n_enum = 0
+        for eu, self_ty, fm, mn, tf in c20.derived_enums(progm):
+            adt_path, adt = c20.enum_adt(eu, self_ty)
+            if adt is None or mn is None:
+                continue
+            engm = fdai.Engine(progm, eu, inline=lambda n, r: False, models={})
+            ordered = []
+            for v in sorted(adt["variants"], key=lambda v_: int(v_["discr"])):
+                rr = engm.run(mn, [RefV(Cell(EnumV(adt_path, v["name"], int(v["discr"]), {i: TOP for i in range(len(v["fields"]))}), "self"))])
+                lit = M._bytes_of(engm, rr[0], rr[0].retval) if len(rr) == 1 and rr[0].outcome == "return" else None
+                if lit is None:
+                    ordered = None
+                    break
+                ordered.append((v["name"], bytes(lit)))
+            if not ordered:
+                continue
+            n_enum += 1
+            badsel, nsel = c20.selection_mismatches(progm, eu, fm, ordered)
+            R.check(not badsel, "R03.4", "derived:%s" % self_ty.split("::")[-1], "from_mnemonic selects by the mnemonic rule (%d texts)" % nsel, "; ".join(badsel[:4]), where=fm.span)
+        R.floor("R03.4", "derived enums", n_enum, 5)
+    except SystemExit as e:
+        R.violation("R03.4", "derived:build", "witness crate does not build: %s" % e)
     # keywords (MIN/MAX/DEF/UP/DOWN/INF/NINF/NAN/ONCE) take no numeric suffix: every conversion that recognises a keyword is
     # folded on the keyword and on the keyword with a `1` appended - the two must not be treated alike (they would be if
     # the keyword were compared with the header rule mnemonic_match instead of mnemonic_compare)
@@ -246,25 +297,31 @@ def run(R, tier):
     for uname, ty, body, kws in targets:
         feng = CV.fold_engine("dflt", uname)
         bad = []
-        for kw in kws:
-            short = ref_short(kw)
 
-            def res_of(text):
-                rs = CV.fold_character(feng, body, text)
-                if rs is None:
-                    return "undecided"
-                return sorted({(M.outcome(r), repr(fdai.snapshot(r.retval))[:200]) for r in rs})
-            base = res_of(kw)
+        def res_of(text):
+            rs = CV.fold_character(feng, body, text)
+            if rs is None:
+                return "undecided"
+            return sorted({(M.outcome(r), repr(fdai.snapshot(r.retval))[:200]) for r in rs})
+        base = {}
+        for kw in kws:
+            base[kw] = res_of(kw)
             n_kw += 1
-            if base == "undecided" or not all(o[0] == "Ok" for o in base):
-                bad.append("%s is not recognised (%s)" % (kw.decode(), base if base == "undecided" else [o[0] for o in base]))
-                continue
-            if res_of(short) != base or res_of(kw.lower()) != base:
-                bad.append("%s: short form / lower case is not treated like the long form" % kw.decode())
-            for t in (kw + b"1", short + b"1"):
-                if res_of(t) == base:
-                    bad.append("%s is treated like %s: keywords take no numeric suffix" % (t.decode(), kw.decode()))
-        R.check(not bad, "R03.4", "keywords:%s" % ty, "%s recognised in short and long form, and not with a numeric suffix appended" % ", ".join(k.decode() for k in kws), "; ".join(bad[:4]), where=body.span)
+            if base[kw] == "undecided" or not all(o[0] == "Ok" for o in base[kw]):
+                bad.append("%s is not recognised (%s)" % (kw.decode(), base[kw] if base[kw] == "undecided" else [o[0] for o in base[kw]]))
+        if not bad:
+            # every text around the keywords: recognised exactly when it is the short or the long form of one of them
+            for text in CV.keyword_probes(kws):
+                hits = [k for k in kws if ref_form_match(k, text)]
+                got = res_of(text)
+                if hits:
+                    if got != base[hits[0]]:
+                        bad.append("%r is not treated like %s" % (text, hits[0].decode()))
+                else:
+                    same = [k.decode() for k in kws if got == base[k]]
+                    if same:
+                        bad.append("%r is treated like %s (only the short and the long form may match; keywords take no numeric suffix)" % (text, same[0]))
+        R.check(not bad, "R03.4", "keywords:%s" % ty, "%s recognised in exactly their short and long form (any letter case); near misses, extensions and numeric suffixes are not" % ", ".join(k.decode() for k in kws), "; ".join(bad[:4]), where=body.span)
     R.floor("R03.4", "keyword guards", n_kw, 36)
     # public re-exports used by the derive and by contrib resolve to the util functions
     R.trust("core::iter::Iterator::all / rposition, slice::split_at and slice equality behave as documented")
